@@ -549,7 +549,9 @@ class Engine:
                 ends["infeasible" if "infeasible" in str(e) else "cut"] += 1
             obligations.extend(ctx.obligations)
             notes.extend(ctx.notes)
-        rep = {"paths": npaths, "ends": ends, "gen_s": round(time.time() - t0, 3),
+        loops = {f"{k[1]} loop{k[2]} (line {k[3]})": v for k, v in self.stats.get("loops", {}).items()
+                 if k[0] == unit.name}
+        rep = {"paths": npaths, "ends": ends, "gen_s": round(time.time() - t0, 3), "cut_loops": loops,
                "sha256": info.sha256, "lines": list(info.lines), "notes": sorted(set(notes)),
                "dropped": sorted(set(_dropped(info))), "file": unit.path,
                "qualname": unit.qualname}
@@ -602,6 +604,11 @@ class Interp:
         gl = unit.get_globals()
         frame = Frame(unit, info, {}, gl)
         self.bind_params(info, frame, args)
+        if any(isinstance(x, ast.Yield) for x in ast.walk(info.node)):
+            kind = getattr(unit, "yield_kind", "elem")
+            empty = SArr(Z(0), z3.K(z3.IntSort(), z3.Const("yield!default", sort_of(kind))), kind)
+            frame.locals["__out__"] = empty
+            frame.locals["__nyield__"] = 0
         frame.old = NS({k: self.snapshot(v) for k, v in frame.locals.items()})
         frame.old.__dict__["_ghost"] = dict(getattr(unit, "ghost", {}) or {})
         st = NS({"old": frame.old, "args": frame.locals, "frame": frame, "ctx": ctx})
@@ -992,6 +999,8 @@ class Interp:
                 nn = z3.simplify(it.n).as_long()
                 return ("concrete", [arr_elem(it, i) for i in range(nn)])
             return ("sym", it.n, lambda i: arr_elem(it, i))
+        if isinstance(it, self.models.SIter):
+            return ("sym", it.n, it.getter, dict(it.info))
         if isinstance(it, SEnumerate):
             inner = self.iter_plan(it.inner)
             if inner[0] == "concrete":
@@ -1033,6 +1042,8 @@ class Interp:
             for x in ast.walk(n):
                 if isinstance(x, ast.Name) and isinstance(x.ctx, (ast.Store, ast.Del)):
                     names.add(x.id)
+                if isinstance(x, ast.Yield):
+                    names.update(("__out__", "__nyield__"))
         return names
 
     def cut_loop(self, s, f, spec, seq):
@@ -1064,8 +1075,6 @@ class Interp:
             elif nm in f.locals:
                 f.locals[nm] = ctx.fresh_like(f.locals[nm], f"{nm}@L{lidx}")
             # names first assigned inside the loop stay undefined at the head
-        if spec.havoc is not None:
-            spec.havoc(ctx, View(f, extra))
         if is_for:
             i = ctx.int(f"it@L{lidx}").e
             n = live_map.order.n if live_map is not None else seq[1]
@@ -1073,6 +1082,8 @@ class Interp:
             ctx.assume(i <= n)
             extra = {"it": i, "n": n}
             extra.update(rng)
+        if spec.havoc is not None:
+            spec.havoc(ctx, View(f, extra))
         for name, inv in spec.inv(ctx, View(f, extra)):
             ctx.assume(inv)
         # --- step or exit
@@ -1081,7 +1092,11 @@ class Interp:
             guard = i < n
         else:
             guard = self.truth(self.eval(s.test, f))
-        if ctx.decide(guard):
+        took = ctx.decide(guard)
+        st = ctx.engine.stats.setdefault("loops", {}).setdefault((f.unit.name, f.info.qualname, lidx, line),
+                                                                 {"step": 0, "exit": 0})
+        st["step" if took else "exit"] += 1
+        if took:
             if spec.hints is not None:
                 for name, h in spec.hints(ctx, View(f, extra)):
                     ctx.lemma(h, f"loop{lidx} hint (valid on its own): {name}", line)
@@ -1418,6 +1433,28 @@ class Interp:
 
     def e_Starred(self, e, f):
         raise Unsupported("starred expression")
+
+    def e_Yield(self, e, f):
+        """generator under contract: the yielded value (its value *now*) is appended
+        to the ghost output; per-yield obligations come from unit.on_yield"""
+        if f.depth != 0 or "__out__" not in f.locals:
+            raise Unsupported("yield outside a generator unit")
+        v = self.eval(e.value, f) if e.value is not None else None
+        unit = f.unit
+        for name, g in unit.on_yield(self.ctx, View(f), v):
+            self.ctx.check(g, f"at yield: {name}", e.lineno, kind="yield")
+        out = f.locals["__out__"]
+        if isinstance(v, SArr):
+            k = z3.Int(self.ctx._name("k!y"))
+            on, oa, va = out.n, out.a, v.a
+            new = SArr(z3.simplify(out.n + v.n),
+                       z3.Lambda([k], z3.If(k < on, z3.Select(oa, k), z3.Select(va, k - on))), out.kind)
+        else:
+            new = SArr(z3.simplify(out.n + 1), z3.Store(out.a, out.n, to_z3(v, out.kind)), out.kind)
+        new.birth = self.ctx.stamp
+        f.locals["__out__"] = new
+        f.locals["__nyield__"] = wrap(to_z3(f.locals["__nyield__"]) + 1)
+        return None
 
     # calls ------------------------------------------------------------------
     def e_Call(self, e, f):
@@ -1780,3 +1817,7 @@ class Unit:
     def raises(self, ctx, st, exc):
         """formula under which raising `exc` is permitted; None = never"""
         return None
+
+    def on_yield(self, ctx, v, value):
+        """obligations at every yield of a generator under contract"""
+        return []
